@@ -244,7 +244,7 @@ def correspond(ctx, binaries, cases, keep=lambda l: True, oracle='mech', what='E
     stats['distinct_nontrivial'] = len(distinct)
     stats['features'] = feats
     reported = 0
-    kimpl = lambda l: keep(l) or l.startswith('CRASH') or l == 'HANG'   # noqa: E731
+    kimpl = lambda l: keep(l) or l.startswith('CRASH') or l.startswith('HANG')   # noqa: E731
     for bname, binary in binaries.items():
         impl = vlib.run_impl(binary, texts, usable)
         if '__exit__' in impl:
@@ -268,7 +268,8 @@ def correspond(ctx, binaries, cases, keep=lambda l: True, oracle='mech', what='E
                     return False
                 im = vlib.run_impl(binary, {'0': t}, ['0'], timeout=60).get('0', ['<missing>'])
                 return vlib.filt(m, keep) != vlib.filt(im, kimpl)
-            small = shrink(cases[int(i)], still)
+            hung = any(l.startswith('HANG') for l in impl.get(i, []))
+            small = shrink(cases[int(i)], still, max_tests=40 if hung else 300)
             t = case_text('0', small)
             m = vlib.run_model(oracle, t, driver='q').get('0', [])
             sp = vlib.run_model('spec', t, driver='q').get('0', [])
@@ -284,7 +285,7 @@ def correspond(ctx, binaries, cases, keep=lambda l: True, oracle='mech', what='E
 def replay_file(ctx, path, binaries, keep=lambda l: True):
     cases = parse_case_text(open(path).read())
     bad = 0
-    kimpl = lambda l: keep(l) or l.startswith('CRASH') or l == 'HANG'   # noqa: E731
+    kimpl = lambda l: keep(l) or l.startswith('CRASH') or l.startswith('HANG')   # noqa: E731
     for k, case in enumerate(cases):
         t = case_text(str(k), case)
         m = vlib.run_model('mech', t, driver='q').get(str(k), ['error'])
